@@ -257,6 +257,28 @@ func init() {
 		return out, nil
 	})
 
+	// c08racectl : CONTROL of the race-detector runs.  Two goroutines of the harness write one variable without any
+	// synchronisation (no poly code involved, so it races whatever poly does about sharing): under the race detector the
+	// process must die with a DATA RACE report (reply `race`); without it the op answers ok.
+	runner.Register("c08racectl", func(args []string) ([]string, error) {
+		shared := 0
+		start := make(chan struct{})
+		var wg sync.WaitGroup
+		for k := 0; k < 2; k++ {
+			wg.Add(1)
+			go func(k int) {
+				defer wg.Done()
+				<-start
+				for i := 0; i < 1000; i++ {
+					shared += k + i
+				}
+			}(k)
+		}
+		close(start)
+		wg.Wait()
+		return []string{strconv.Itoa(shared & 1)}, nil
+	})
+
 	// c08conc <id:s1,s2,...|id:@n>... : one goroutine per argument.  A WRITER (id:s1,s2,...) re-weights ITS default
 	// table with s1, s2, ... in turn; a READER (id:@n) requests default table id n times while the writers run, each
 	// time serialising it and adding it to itself, and reports the last text and whether all n looks were identical.
